@@ -59,8 +59,6 @@ type gen struct {
 	kwCase  int
 	nbind   int
 	simple  bool
-	allKW   map[string]bool
-	depthCt int
 	// the SELECT being generated is the last operand of a UNION
 	unionTail bool
 }
